@@ -19,16 +19,17 @@ const (
 
 // Val is a schema-less value tree.
 type Val struct {
-	Kind  int
-	Data  []byte // struct: data section, whole words
-	Ptrs  []*Val // struct: pointer section
-	EK    int    // list: element kind 0 void,1 bit,2..5 = 1,2,4,8 bytes,6 pointer,7 composite
-	N     int    // list: element count
-	Prim  []byte // list kinds 1..5: content bytes (bit lists: ceil(N/8))
-	Elems []*Val // list kind 6: pointers; kind 7: structs of uniform shape (DS words, PC ptrs)
-	DS    int    // composite: data words per element
-	PC    int    // composite: pointers per element
-	Cap   uint32
+	Kind   int
+	Data   []byte // struct: data section, whole words
+	Ptrs   []*Val // struct: pointer section
+	EK     int    // list: element kind 0 void,1 bit,2..5 = 1,2,4,8 bytes,6 pointer,7 composite
+	N      int    // list: element count
+	Prim   []byte // list kinds 1..5: content bytes (bit lists: ceil(N/8))
+	Elems  []*Val // list kind 6: pointers; kind 7: structs of uniform shape (DS words, PC ptrs)
+	DS     int    // composite: data words per element
+	PC     int    // composite: pointers per element
+	Cap    uint32
+	InList bool // element of a struct list: its shape is fixed by the list
 }
 
 type layout struct {
@@ -229,7 +230,9 @@ func genList(r *lib.Rng, depth int, budget *int) *Val {
 		}
 		v.DS, v.PC = r.Intn(3), r.Intn(3)
 		for i := 0; i < v.N; i++ {
-			v.Elems = append(v.Elems, genStruct(r, depth, budget, v.DS, v.PC))
+			e := genStruct(r, depth, budget, v.DS, v.PC)
+			e.InList = true
+			v.Elems = append(v.Elems, e)
 		}
 	default:
 		v.Prim = genData(r, n*elemBytes[ek])
